@@ -41,6 +41,9 @@ def build_case(rng, cid):
         src.append("rule r%d { strings: $h = { %s } condition: $h }" % (i, m_hex.render(seq, rng)))
     text = "\n".join(src) + "\n"
     lines = ["dumpac 2", "cnew 0", "cadd 0 - " + hx(text), "crules 0 0"]
+    if rng.random() < 0.25:
+        # YR_CONFIG_MAX_MATCH_DATA only limits the bytes copied for the callback; offsets and lengths must not depend on it
+        lines.insert(0, "cfg matchdata %d" % rng.choice([0, 1, 2, 5, 64, 4096]))
     for j, b in enumerate(bufs):
         lines.append("buf %d %s" % (j, hx(b)))
         lines.append("scan r0 mem %d 0 0 -" % j)
